@@ -7,6 +7,10 @@ Generators, tolerances and comparisons: props/cases_c17.py (details in props/C17
      alpha, K⁻¹), ln_m, ln_m_with_params (value + gradient), set_parameters∘ln_m, predictive mean / cov / variance / std,
      set_parameters(parameters()), the assembled query matrix — relative 1e-8·max(1, cond/1e6);
   2. the gradient of the implementation against central differences of the implementation's own ln_m in every log-parameter;
+  2b. set_parameters(θ') with every log-parameter moved by 0.2–1.0, all six kernel shapes × both noise models: parameters, ln_m,
+     the cached alpha (private; read through the serde rendering), predictive mean / cov / variance of the resulting process
+     against the model's refit AND against a process the implementation trains from scratch with the kernel at θ'
+     (`gp.set_vs_fresh`); a set_parameters with a wrong number of parameters is rejected and leaves the process unchanged;
   3. Uniform(1e-10): predictive mean at the training inputs = targets, input dimension 1..4;
   4. layout: the matrix handed to the kernel is the list of query points, the joint prediction at n points equals the n
      single-point predictions (model-independent), dimension 1..4; the witness of the repaired scrambling defect;
